@@ -163,7 +163,7 @@ def variants(tier):
     v += [("frequencies", se, sort) for se in ses for sort in (False, True)]
     v += [("topk", k, key, se) for k in ((1, 3) if tier == "quick" else (0, 1, 2, 3, 5)) for key in (None, "neg") for se in ses]
     v += [("fold", f, init, se) for f in ("add", "max", "set") for init in (False, True) for se in ses if not (f == "set" and not init)]
-    v += [("reduction", f, se) for f in ("sum", "len", "min") for se in ses]
+    v += [("reduction", f, se) for f in (("len",) if tier == "quick" else ("sum", "len", "min")) for se in ses]  # Bag.sum/min ARE reduction(sum, sum)/(min, min)
     v += [("foldby", init, cinit, se) for init in (False, True) for cinit in (False, True) for se in ses]
     v += [("groupby", g, "tasks", mb) for g in ("mod2", "letter") for mb in (None, 2)]
     # disk shuffle: blocksize (elements per spill block) 2 forces several blocks per partition; the default 2**20 is not enumerated
@@ -176,7 +176,7 @@ def variants(tier):
     v += [("repartition", "n", m) for m in (1, 2, 3, 4)] + [("repartition", "size", s) for s in (64, 200, "1kB")]
     v += [("zip", 2), ("zip", 3)]
     v += [("concat", l2) for l2 in range(len(LAY2))] + [("concat", "self")]
-    v += [(st, se) for st in ("sum", "max", "min", "any", "all", "count") for se in ses]
+    v += [(st, se) for st in ("sum", "max", "min", "any", "all", "count") for se in ses if tier != "quick" or se is None or st in ("sum", "max", "min")]
     v += [("mean",), ("var", 0), ("var", 1), ("std", 0), ("std", 1)]
     return tuple(v)
 
